@@ -153,6 +153,12 @@ var kinds = []kind{
 	{name: "division by zero", family: "division-by-zero", tag: `<%= 1 / 0 %>`, runtime: true},
 	{name: "division by zero in let", family: "division-by-zero", tag: `<% let q = 7 / 0 %>`, runtime: true},
 	{name: "unknown identifier after a call", family: "unknown-identifier", setup: "<% let f0 = fn() { %>\n<% let i0 = 1 %>\n<% } %>\n\n", tag: `<%= f0() + nope %>`, runtime: true, afterCall: true},
+	// a failure that the SAME statement forgives (an unknown identifier raised in the body of a called function, used as
+	// an operand of == / && / ! or as an if condition) comes first; the statement then fails for another reason
+	{name: "type error after a forgiven failure, &&", family: "type-error", setup: "<% let t0 = fn() { %>\n<% return missingName %>\n<% } %>\n\n", tag: `<%= t0() == nil && 1 + "a" %>`, runtime: true, afterCall: true},
+	{name: "failing helper after a forgiven failure, ==", family: "failing-helper", setup: "<% let t0 = fn() { %>\n<% return missingName %>\n<% } %>\n\n", tag: `<%= t0() == boom() %>`, runtime: true, afterCall: true},
+	{name: "division by zero after a forgiven failure, !", family: "division-by-zero", setup: "<% let t0 = fn() { %>\n<% let q0 = missingName %>\n<% } %>\n\n", tag: `<%= !t0() && 1 / 0 %>`, runtime: true, afterCall: true},
+	{name: "failing helper in else-if after a forgiven if condition", family: "failing-helper", setup: "<% let t0 = fn() { %>\n<% return missingName %>\n<% } %>\n\n", lead: "<%= if (t0()) { %>\nc\n", tag: `<% } else if (boom()) { %>`, tail: `d<% } %>`, runtime: true, afterCall: true},
 	{name: "unknown identifier, unterminated tag", family: "unterminated", tag: `<%= nope`, runtime: true, toEOF: true},
 	{name: "unknown identifier, unterminated string", family: "unterminated", tag: `<%= nope + "abc`, runtime: true, toEOF: true},
 	{name: "unknown identifier, unterminated raw string", family: "unterminated", tag: "<%= nope + `abc", runtime: true, toEOF: true},
